@@ -19,6 +19,7 @@ package stream
 import (
 	"encoding/json"
 	"fmt"
+	"regexp"
 	"strings"
 	"time"
 
@@ -512,10 +513,16 @@ func (dp *DataProcessor) applyDistinct(results []map[string]any) []map[string]an
 	return finalResults
 }
 
+var (
+	havingCaseKeyword   = regexp.MustCompile(`(?i)\bCASE\b`)
+	havingQuotedLiteral = regexp.MustCompile(`'[^']*'|"[^"]*"`)
+)
+
 // applyHavingFilter applies HAVING filter
 func (dp *DataProcessor) applyHavingFilter(results []map[string]any) []map[string]any {
 	// Check if HAVING condition contains CASE expression
-	hasCaseExpression := strings.Contains(strings.ToUpper(dp.stream.config.Having), SQLKeywordCase)
+	// CASE as a keyword: not as part of an identifier (alias `cases`) nor inside a string literal
+	hasCaseExpression := havingCaseKeyword.MatchString(havingQuotedLiteral.ReplaceAllString(dp.stream.config.Having, "''"))
 
 	var filteredResults []map[string]any
 
@@ -569,6 +576,10 @@ func (dp *DataProcessor) applyHavingWithCaseExpression(results []map[string]any)
 				}
 			} else if strResult, ok := havingResult.(string); ok {
 				if strResult != "" {
+					filteredResults = append(filteredResults, result)
+				}
+			} else if boolResult, ok := havingResult.(bool); ok {
+				if boolResult {
 					filteredResults = append(filteredResults, result)
 				}
 			} else {
